@@ -4,6 +4,7 @@ package main
 
 import (
 	"fmt"
+	"sort"
 	"go/constant"
 	"go/types"
 	"strings"
@@ -747,6 +748,9 @@ func (vc *VC) evalCall(c SCall, env *Env) SpecVal {
 			}
 			vars[prm.Name] = v
 		}
+		if p.Opaque {
+			return vc.applyOpaquePred(p, vars, env)
+		}
 		n := &Env{vc: vc, st: env.st, old: env.old, vars: vars, pkg: vc.w.pkgForFile(p.File), depth: env.depth + 1}
 		return ghostVal(vc.evalBool(p.Body, n), "Bool")
 	}
@@ -829,4 +833,89 @@ func (w *World) pkgForFile(file string) *types.Package {
 		}
 	}
 	return nil
+}
+
+
+// opaque predicates: an uninterpreted symbol over the parameters and the heaps/ghosts the body reads,
+// with a quantified defining axiom triggered by the application. Two states that agree on those heaps
+// give syntactically identical atoms, so preservation across unrelated updates costs nothing.
+type opaqueInfo struct {
+	name   string
+	heaps  []string
+	ghosts []string
+	alloc  bool
+}
+
+func (vc *VC) applyOpaquePred(p *Pred, vars map[string]SpecVal, env *Env) SpecVal {
+	info := vc.opaquePreds[p.Name]
+	penv := &Env{vc: vc, pkg: vc.w.pkgForFile(p.File)}
+	if info == nil {
+		ph := &phInfo{heaps: map[string]bool{}, ghosts: map[string]bool{}}
+		pst := &State{heap: map[string]string{}, ghost: map[string]string{}, alloc: "a!alloc", ph: ph}
+		bvars := map[string]SpecVal{}
+		var binders, bts []string
+		for _, prm := range p.Params {
+			gt, srt := vc.sortOfTypeExpr(prm.T, penv)
+			bn := "p!" + prm.Name
+			bvars[prm.Name] = SpecVal{T: bn, Sort: srt, GoT: gt}
+			binders = append(binders, fmt.Sprintf("(%s %s)", bn, srt))
+			bts = append(bts, bn)
+		}
+		n := &Env{vc: vc, st: pst, old: pst, vars: bvars, pkg: penv.pkg, depth: 60}
+		body := vc.evalBool(p.Body, n)
+		info = &opaqueInfo{name: "pr_" + p.Name}
+		for h := range ph.heaps {
+			info.heaps = append(info.heaps, h)
+		}
+		sort.Strings(info.heaps)
+		for g := range ph.ghosts {
+			info.ghosts = append(info.ghosts, g)
+		}
+		sort.Strings(info.ghosts)
+		info.alloc = strings.Contains(body, "a!alloc")
+		var sorts []string
+		for _, b := range p.Params {
+			_, srt := vc.sortOfTypeExpr(b.T, penv)
+			sorts = append(sorts, srt)
+		}
+		for _, h := range info.heaps {
+			srt := fmt.Sprintf("(Array Loc %s)", vc.enc.heaps[h])
+			sorts = append(sorts, srt)
+			binders = append(binders, fmt.Sprintf("(h!%s %s)", h, srt))
+			bts = append(bts, "h!"+h)
+		}
+		for _, g := range info.ghosts {
+			srt := vc.w.cs.GhostByNm[g].Sort
+			sorts = append(sorts, srt)
+			binders = append(binders, fmt.Sprintf("(g!%s %s)", g, srt))
+			bts = append(bts, "g!"+g)
+		}
+		if info.alloc {
+			sorts = append(sorts, "Int")
+			binders = append(binders, "(a!alloc Int)")
+			bts = append(bts, "a!alloc")
+		}
+		vc.enc.Declare(info.name, fmt.Sprintf("(declare-fun %s (%s) Bool)", info.name, strings.Join(sorts, " ")))
+		app := sx(info.name, bts...)
+		if len(binders) > 0 {
+			vc.axiomAsserts = append(vc.axiomAsserts, fmt.Sprintf("(forall (%s) (! (= %s %s) :pattern (%s)))", strings.Join(binders, " "), app, body, app))
+		} else {
+			vc.axiomAsserts = append(vc.axiomAsserts, eq(app, body))
+		}
+		vc.opaquePreds[p.Name] = info
+	}
+	var args []string
+	for _, prm := range p.Params {
+		args = append(args, vars[prm.Name].T)
+	}
+	for _, h := range info.heaps {
+		args = append(args, vc.heapGet(env.st, h))
+	}
+	for _, g := range info.ghosts {
+		args = append(args, vc.ghostGet(env.st, g))
+	}
+	if info.alloc {
+		args = append(args, env.st.alloc)
+	}
+	return ghostVal(sx(info.name, args...), "Bool")
 }
